@@ -305,6 +305,9 @@ class Scheduler(object):
       g['fired'] = True
       g['event']._flag = True  # pylint: disable=protected-access
     if kind == 'timer':
+      if any(a[0] == 'run' for a in alts):
+        # a timer fired although some thread could still run: the clock jumped ahead of the computation by this much
+        self.early_jump = getattr(self, 'early_jump', 0.0) + max(0.0, target.deadline - self.now)
       self.now = max(self.now, target.deadline)
       target.timed_out = True
     elif kind.startswith('signal'):
@@ -407,6 +410,9 @@ class Scheduler(object):
       alts[idx][2]['fired'] = True
       alts[idx][2]['event']._flag = True  # pylint: disable=protected-access
     if kind == 'timer':
+      if any(a[0] == 'run' for a in alts):
+        # a timer fired although some thread could still run: the clock jumped ahead of the computation by this much
+        self.early_jump = getattr(self, 'early_jump', 0.0) + max(0.0, target.deadline - self.now)
       self.now = max(self.now, target.deadline)
       target.timed_out = True
     elif kind.startswith('signal'):
